@@ -190,6 +190,13 @@ static std::vector<Lex> gen_program(Rng& r) {
 
 static json reader_sim(const std::vector<int>& chunks, int tail, bool line) { return json{{"type", "sim"}, {"chunks", chunks}, {"tail", tail}, {"line", line}}; }
 
+// the repository's own reader behind a caller that asks for a few bytes at a time (the parser may ask for any size up to its buffer)
+struct SmallAsk : bloc::Parser::StreamReader {
+  bloc::Parser::StreamReader& inner; int ask;
+  SmallAsk(bloc::Parser::StreamReader& r, int n) : inner(r), ask(n) {}
+  int read(bloc::Parser* p, char* buf, int max_size) override { return inner.read(p, buf, ask > 0 && ask < max_size ? ask : max_size); }
+};
+
 struct C13 : Profile {
   const char* id() const override { return "C13"; }
   const char* level() const override { return "fault_enumeration"; }
@@ -255,8 +262,13 @@ struct C13 : Profile {
       static const char* rd[] = {"string", "file", "include"};
       std::string t = rd[r.below(program ? 3 : 2)];
       bool crlf = r.chance(0.5);
+      if (r.chance(0.4)) { // blank lines (a CRLF pair on its own), only between lexemes
+        RefLexResult lx = reflex(text); size_t nl = std::string::npos;
+        for (size_t i = 0; i < text.size() && nl == std::string::npos; ++i) if (text[i] == '\n') { bool inside = false; for (auto& t : lx.tokens) if (i >= t.pos && i < t.end) { inside = true; break; } if (!inside && !lx.open_literal && !lx.open_comment) nl = i; }
+        if (nl != std::string::npos) { std::string t2 = text; t2.insert(nl + 1, r.chance(0.5) ? "\n" : "\n\n"); RefLexResult l2 = reflex(t2); bool same = l2.tokens.size() == lx.tokens.size(); for (size_t i = 0; same && i < l2.tokens.size(); ++i) same = l2.tokens[i].text == lx.tokens[i].text && l2.tokens[i].code == lx.tokens[i].code; if (same) { text = t2; plan["text"] = enc(text); } } }
+      int ask = t == "string" ? (int)r.pick(std::vector<long>{0, 0, 1, 2, 3, 7, 64}) : 0;
       if (crlf) { std::string c; for (char ch : text) { if (ch == '\n') c += "\r\n"; else c.push_back(ch); } plan["text"] = enc(c); plan["lf_text"] = enc(text); }
-      plan["reader"] = json{{"type", t}, {"crlf", crlf}};
+      plan["reader"] = json{{"type", t}, {"crlf", crlf}, {"ask", ask}};
       return plan;
     }
     size_t len = text.size();
@@ -292,7 +304,7 @@ struct C13 : Profile {
       SimReader sr(text, rd.value("chunks", std::vector<int>()), rd.value("tail", 0), rd.value("line", false));
       toks = lex_impl(sr); cuts = sr.offsets;
     } else if (rtype == "string") {
-      bloc::StringReader sr(text); toks = lex_impl(sr);
+      bloc::StringReader sr0(text); SmallAsk sr(sr0, rd.value("ask", 0)); toks = lex_impl(sr); if (rd.value("ask", 0) > 0) ++res.probes["string_reader_asked_in_small_pieces"];
     } else {
       Capture c; make_file(c); FILE* f = fdopen(dup(c.fd()), "r"); ReadFile rf(f); toks = lex_impl(rf); fclose(f);
     }
@@ -324,7 +336,7 @@ struct C13 : Profile {
     if (res.vclass.empty() && kind == "program") {
       ProgOut a, b;
       if (rtype == "sim") { SimReader sr(text, rd.value("chunks", std::vector<int>()), rd.value("tail", 0), rd.value("line", false)); a = run_program(sr); }
-      else if (rtype == "string") { bloc::StringReader sr(text); a = run_program(sr); }
+      else if (rtype == "string") { bloc::StringReader sr0(text); SmallAsk sr(sr0, rd.value("ask", 0)); a = run_program(sr); }
       else if (rtype == "file") { Capture c; make_file(c); FILE* f = fdopen(dup(c.fd()), "r"); ReadFile rf(f); a = run_program(rf); fclose(f); }
       else { // include "<memfd path>" in a trusted context
         Capture c; make_file(c); Capture out; std::string src = "include \"/proc/self/fd/" + std::to_string(c.fd()) + "\";\n";
